@@ -6,7 +6,7 @@ ID = 'C15'
 RULE = ('tmp cases: one lifetime of a sorter in a fresh directory that already holds a file and a sub-directory: chunk '
         'size / threads / compression as in C01, n input items, exit in {returned after k items consumed, panic in the '
         'input iterator at item k, panic in the comparator at call k}, drop order {iterator first, sorter first}, directory '
-        'given explicitly or through TMPDIR; recursive listings are taken before build, after build, inside the input '
+        'given explicitly (TMPDIR then points elsewhere and is watched too), through TMPDIR, or naming a directory that does not exist (build must fail and create nothing); the builder calls are issued in a random order; recursive listings are taken before build, after build, inside the input '
         'iterator, after sort_by, after partial consumption, between the two drops and at the end; the extracted oracle '
         'tmp_ok judges them (everything created lives under one new top-level directory with no visible children; the final '
         'listing equals the initial one); non-trivial = at least 2 chunks were spilled; distinct by case text')
@@ -21,12 +21,17 @@ def gen(rng, tier):
         cs = rng.choice([1, 2, 3, 7, 'default', 100])
         threads = rng.choice([1, 2, 'default'])
         comp = rng.choice(['none', 'none', 1, 4])
+        steps = [['dir']]
+        if cs != 'default': steps.append(['cs', cs])
+        if threads != 'default': steps.append(['threads', threads])
+        if comp != 'none': steps.append(['comp', comp])
+        rng.shuffle(steps)                      # builder calls in any order
         exit_ = rng.choice(['returned', 'returned', 'returned', 'panic_input', 'panic_cmp'])
         k = rng.randint(0, max(1, N))
         order = rng.choice(['iter_first', 'sorter_first'])
-        where = rng.choice(['dir', 'dir', 'dir', 'env'])
+        where = rng.choice(['dir', 'dir', 'dir', 'dir', 'env', 'missing'])
         chunks = 0 if cs == 'default' else -(-N // cs)
-        yield Case(sx.dump(['tmp', cs, threads, comp, N, exit_, k, order, where]), chunks >= 2, exit_)
+        yield Case(sx.dump(['tmp', ['steps'] + steps, N, exit_, k, order, where]), chunks >= 2, exit_ + '-' + where)
 
 
 def canon(case, out):
@@ -41,9 +46,9 @@ def oracle_line(case, impl, model, bad):
     try:
         o = sx.parse(impl)
         d = {x[0]: x for x in o if isinstance(x, list)}
-        return sx.dump(['tmpchk', d['before'], d['during'], d['after']])
+        return sx.dump(['tmpchk', d['cfg'][1], d['before'], d['during'], d['after']])
     except Exception:
-        return '(tmpchk (before 61) (during) (after))'     # malformed / panicked harness output: never accepted
+        return '(tmpchk 63 (before 61) (during) (after))'     # malformed / panicked harness output: never accepted
 
 
 def classify(case, impl, model):
